@@ -162,6 +162,7 @@ class Unsupported(Exception):
 def build(pattern, flags=0, lookahead_consumes=True):
     """NFA for the *whole-string* language of ``pattern`` (as used with match() on an anchored pattern, or as a token
     language).  ``$`` at the end becomes an optional final newline; a trailing look-ahead of one class is consumed."""
+    flags |= getattr(pattern, 'flags', 0)        # ply compiles its token rules with re.VERBOSE (grammar.TokenRegex)
     try:
         tree = sre_parse.parse(pattern, flags)
     except Exception as e:
@@ -471,7 +472,7 @@ def eda_witness(nfa, alpha):
 def literal_lexeme(pattern):
     """If the regex denotes exactly one literal string, return it (e.g. r'\\<\\=' -> '<=')."""
     try:
-        tree = sre_parse.parse(pattern)
+        tree = sre_parse.parse(pattern, getattr(pattern, 'flags', 0))
     except Exception:
         return None
     out = []
